@@ -865,6 +865,26 @@ func (c *EvalCtx) call(n *Node) Val {
 			return Opaque{Tag: "no-call:" + nm}
 		}
 		return tu[k]
+	case "call_count":
+		// call_count("callee"): how many calls of the callee were answered by its contract on this path
+		nm, _ := arg(0).(Text).concrete()
+		tu, _ := c.st.Ghost["callargs:"+nm].(Tuple)
+		return mkInt(int64(len(tu)))
+	case "called_with":
+		// called_with("callee", k, v): some call of the callee on this path had v as its k-th argument (receiver first)
+		nm, _ := arg(0).(Text).concrete()
+		k, _ := c.evalTerm(n.Kids[1]).intVal()
+		tu, _ := c.st.Ghost["callargs:"+nm].(Tuple)
+		want := arg(2)
+		var alts []*T
+		for _, call := range tu {
+			as, ok := call.(Tuple)
+			if !ok || int(k) >= len(as) {
+				continue
+			}
+			alts = append(alts, sameVal(as[k], want, "called_with", nil))
+		}
+		return mkOr(alts...)
 	case "new_schema_type":
 		// setup only: new_schema_type("object") is a *schemas.Type with that type list
 		// ("" for none)
